@@ -80,11 +80,11 @@ theorem rcptGot_append (c : Client) (x : Nat × Dest × Option Acct × RType) (i
   split <;> simp
 
 section
-variable {accts : List Acct} {groups : List (Nat × List Acct)}
+variable {ex : Bool} {accts : List Acct} {groups : List (Nat × List Acct)}
 
 /-- what is known about a receipt at the head of the sender's queue -/
 theorem receipt_facts {s : Sys} {a : Acct} {rest : List Stanza} {id : Nat} {peer : Dest} {part : Option Acct} {t : RType}
-    (hA : AInv accts groups (abs s)) (hT : TV accts groups s.submitted (view s))
+    (hA : AInv accts groups (abs s)) (hT : TV ex accts groups s.submitted (view s))
     (hq : queueOf s.outbound a = .receipt id peer part t :: rest) :
     a ∈ accts ∧ ∃ n, (a, n) ∈ s.submitted ∧ n.id = id ∧ RecShape n peer part ∧ whoOf peer part ∈ intendedG groups a n ∧
       (t = .delivery → 1 ≤ shownC (getClient s (whoOf peer part)) id) ∧ (∀ cnt, t = .retry cnt → 1 ≤ cnt) := by
@@ -99,9 +99,9 @@ theorem receipt_facts {s : Sys} {a : Acct} {rest : List Stanza} {id : Nat} {peer
 /-- a retry request arrives: the node is found in the sent queue and a continuation for the resend is registered -/
 theorem onReceipt_retry_TV (hw : WFConfig accts groups) {s : Sys} {a : Acct} {rest : List Stanza} {id : Nat} {peer : Dest}
     {part : Option Acct} {cnt : Nat}
-    (hA : AInv accts groups (abs s)) (hT : TV accts groups s.submitted (view s))
+    (hA : AInv accts groups (abs s)) (hT : TV ex accts groups s.submitted (view s))
     (hq : queueOf s.outbound a = .receipt id peer part (.retry cnt) :: rest) :
-    TV accts groups s.submitted (view (onReceipt { s with outbound := insert s.outbound a rest } a id peer part (.retry cnt))) := by
+    TV ex accts groups s.submitted (view (onReceipt { s with outbound := insert s.outbound a rest } a id peer part (.retry cnt))) := by
   obtain ⟨ha, n, hn1, hn2, hrs, hwint, _, hcnt⟩ := receipt_facts hA hT hq
   have hcnt1 : 1 ≤ cnt := hcnt cnt rfl
   have hacc : a ∈ (view { s with outbound := insert s.outbound a rest }).accounts := by
@@ -306,7 +306,7 @@ theorem onReceipt_retry_TV (hw : WFConfig accts groups) {s : Sys} {a : Acct} {re
 
 /-- a delivery receipt arrives: it is handed to the application (and a 1:1 node leaves the sent queue) -/
 theorem bubble_step {s : Sys} {a : Acct} {rest : List Stanza} {id : Nat} {peer : Dest} {part : Option Acct} {c1 : Client}
-    (hA : AInv accts groups (abs s)) (hT : TV accts groups s.submitted (view s))
+    (hA : AInv accts groups (abs s)) (hT : TV ex accts groups s.submitted (view s))
     (hq : queueOf s.outbound a = .receipt id peer part .delivery :: rest)
     (hsame : c1.pendingIn = (getClient s a).pendingIn ∧ c1.shown = (getClient s a).shown ∧ c1.seen = (getClient s a).seen ∧
         c1.seenSK = (getClient s a).seenSK ∧ c1.receipts = (getClient s a).receipts ∧ c1.ownSK = (getClient s a).ownSK ∧
@@ -450,9 +450,9 @@ theorem bubble_step {s : Sys} {a : Acct} {rest : List Stanza} {id : Nat} {peer :
 
 theorem onReceipt_delivery_TV (hw : WFConfig accts groups) {s : Sys} {a : Acct} {rest : List Stanza} {id : Nat} {peer : Dest}
     {part : Option Acct}
-    (hA : AInv accts groups (abs s)) (hT : TV accts groups s.submitted (view s))
+    (hA : AInv accts groups (abs s)) (hT : TV ex accts groups s.submitted (view s))
     (hq : queueOf s.outbound a = .receipt id peer part .delivery :: rest) :
-    TV accts groups s.submitted (view (onReceipt { s with outbound := insert s.outbound a rest } a id peer part .delivery)) := by
+    TV ex accts groups s.submitted (view (onReceipt { s with outbound := insert s.outbound a rest } a id peer part .delivery)) := by
   obtain ⟨ha, _⟩ := receipt_facts hA hT hq
   have hacc : a ∈ (view { s with outbound := insert s.outbound a rest }).accounts := by
     show a ∈ (view s).accounts; rw [hT.acc]; exact ha
